@@ -1,1 +1,122 @@
-// harness file fdl_live_list (see /verif/DESIGN.md)
+// C18 harnesses (live list part): src/fdl/live_list.rs, as crate::fdl::live_list::verif.
+//
+// One-step lemmas from a symbolic LiveList state; the 126-address sweep is the paper step
+// (DESIGN §4 C18).
+
+use super::*;
+use crate::fdl::{DataTelegram, DataTelegramHeader, FdlApplication, FunctionCode, HighPrioOnly, ShortConfirmation, Telegram, TelegramTx};
+use crate::verif_support::*;
+
+fn any_live_list() -> LiveList {
+    let mut stations: bitvec::BitArr!(for 128) = bitvec::array::BitArray::ZERO;
+    stations.data = [kani::any(), kani::any()];
+    let cursor: u8 = kani::any();
+    kani::assume(cursor <= 125);
+    LiveList {
+        stations,
+        cursor,
+        // events are collected after every poll (the property's premise)
+        pending_event: None,
+        current_address_done: kani::any(),
+    }
+}
+
+fn bit(words: &[usize; 2], a: u8) -> bool {
+    words[usize::from(a) / 64] >> (usize::from(a) % 64) & 1 != 0
+}
+
+fn others_unchanged(before: &[usize; 2], after: &[usize; 2], a: u8) -> bool {
+    let mut mask = [usize::MAX; 2];
+    mask[usize::from(a) / 64] &= !(1usize << (usize::from(a) % 64));
+    before[0] & mask[0] == after[0] & mask[0] && before[1] & mask[1] == after[1] & mask[1]
+}
+
+#[kani::proof]
+#[kani::unwind(10)]
+fn c18_livelist_transmit() {
+    let fdl = any_fdl();
+    let mut ll = any_live_list();
+    let pre_cursor = ll.cursor;
+    let pre_done = ll.current_address_done;
+    let pre_words = ll.stations.data;
+    let mut buf = [0u8; 8];
+    let now = crate::time::Instant::from_micros(kani::any::<u32>());
+    let hp = if kani::any() { HighPrioOnly::Yes } else { HighPrioOnly::No };
+    let res = ll.transmit_telegram(now, &fdl, TelegramTx::new(&mut buf), hp);
+    assert!(ll.stations.data[0] == pre_words[0] && ll.stations.data[1] == pre_words[1], "C18/list: asking for a telegram never changes the list");
+    if pre_done {
+        assert!(res.is_none(), "C18/sweep: after an address is done the application ends its turn");
+        assert!(ll.cursor == if pre_cursor == 125 { 0 } else { pre_cursor + 1 }, "C18/sweep: the sweep advances by exactly one address, wrapping after 125");
+        assert!(!ll.current_address_done, "C18/sweep: the next address is pending");
+        kani::cover!(pre_cursor == 125, "cover: sweep wraps");
+    } else {
+        let r = res.unwrap();
+        let h = DataTelegramHeader {
+            da: pre_cursor,
+            sa: fdl.parameters().address,
+            dsap: None,
+            ssap: None,
+            fc: FunctionCode::Request { fcb: crate::fdl::FrameCountBit::Inactive, req: crate::fdl::RequestType::FdlStatus },
+        };
+        let mut expect = [0u8; 8];
+        let elen = ref_encode(&h, 0, |_| 0, &mut expect);
+        assert!(r.bytes_sent() == elen && r.expects_reply() == Some(pre_cursor), "C18/probe: a status request to the cursor address, expecting its reply");
+        let mut i = 0;
+        while i < elen {
+            assert!(buf[i] == expect[i], "C18/probe: the probe is an FDL status request from this station to the cursor address");
+            i += 1;
+        }
+        assert!(pre_cursor <= 125, "C18/probe: only addresses 0..125 are probed");
+        assert!(ll.cursor == pre_cursor && !ll.current_address_done, "C18/sweep: the cursor stays until reply or time-out");
+        kani::cover!(true, "cover: probe sent");
+    }
+    assert!(ll.cursor <= 125, "C18/probe: the cursor stays within 0..125");
+}
+
+#[kani::proof]
+#[kani::unwind(10)]
+fn c18_livelist_reply_or_timeout() {
+    let fdl = any_fdl();
+    let mut ll = any_live_list();
+    kani::assume(!ll.current_address_done); // a request is outstanding
+    let addr = ll.cursor;
+    let pre_words = ll.stations.data;
+    let was_set = bit(&pre_words, addr);
+    let now = crate::time::Instant::from_micros(kani::any::<u32>());
+    if kani::any() {
+        // a reply, as the FDL layer admits it
+        let state = any_response_state();
+        let status = any_response_status();
+        let pdu: [u8; 2] = kani::any();
+        let plen: usize = kani::any();
+        kani::assume(plen <= 2);
+        let is_sc: bool = kani::any();
+        let t = if is_sc {
+            Telegram::ShortConfirmation(ShortConfirmation)
+        } else {
+            Telegram::Data(DataTelegram {
+                h: DataTelegramHeader { da: fdl.parameters().address, sa: addr, dsap: any_sap(), ssap: any_sap(), fc: FunctionCode::Response { state, status } },
+                pdu: &pdu[..plen],
+            })
+        };
+        ll.receive_reply(now, &fdl, addr, t);
+        assert!(bit(&ll.stations.data, addr), "C18/list: an answering address is in the list");
+        assert!(others_unchanged(&pre_words, &ll.stations.data, addr), "C18/list: no other address changes");
+        let ev = ll.take_last_event();
+        if was_set {
+            assert!(ev.is_none(), "C18/events: no event for a station that is already known");
+        } else if !is_sc {
+            assert!(ev == Some(StationEvent::Discovered(StationDescription { address: addr, state })), "C18/events: Discovered, with the reported station type, exactly when the address was not in the list");
+            kani::cover!(true, "cover: station discovered");
+        }
+    } else {
+        ll.handle_timeout(now, &fdl, addr);
+        assert!(!bit(&ll.stations.data, addr), "C18/list: a silent address is not in the list");
+        assert!(others_unchanged(&pre_words, &ll.stations.data, addr), "C18/list: no other address changes");
+        let ev = ll.take_last_event();
+        assert!(ev == if was_set { Some(StationEvent::Lost(addr)) } else { None }, "C18/events: Lost exactly when the address was in the list");
+        kani::cover!(was_set, "cover: station lost");
+    }
+    assert!(ll.current_address_done && ll.cursor == addr, "C18/sweep: the address is done, the cursor moves with the next turn");
+    assert!(ll.take_last_event().is_none(), "C18/events: an event is handed out once");
+}
